@@ -179,6 +179,49 @@ def register_dominance(R):
                    note='order of operations in one iteration of the key loop: adoption of a key the older mapping lacks is dominated by the new-path check; callee preconditions and run-time type safety are NOT obligations of this instance (they belong to the functional contracts)'))
 
 
+def register_wholesale(R):
+    """ComposedNode.on_merge_impl, deleting branch (C02 'a list replaces', C04 'a deleting node replaces exactly'): when the newer node deletes,
+    the pruning walk has emptied the older node (nothing in it outranks its counterpart) and the newer node is not outranked by the
+    older one - equal priority included - the result IS the newer node taking the older one's place (_replace_other on the newer
+    node), not a key-wise graft of its entries into the emptied older container.  Ghosts: EmptiedByPruning(older) := the older node
+    has no children when filter_nodes returns; TakesPlaceOf(a, b) := what a._replace_other(b) returns."""
+    D = 'awesomeyaml/nodes/dict.py::'
+    anyall = lambda fields: (lambda c: [(f, 'all') for f in fields])
+    NODEF = ['_priority', '_delete', '_allow_new', '_safe', '_implicit_delete', '_implicit_allow_new', '_implicit_safe', '_default_safe', '_metadata',
+             '_pyyaml_node', '_children', '$mlen', '$mkeyat', '$mpos', '$mval', '$llen', '$litem', '$pset', '_func']
+    KEEP = ('_priority', '_delete', '_implicit_delete')
+    Emptied = z3.Function('EmptiedByPruning', sym.I, z3.BoolSort())
+    Takes = z3.Function('TakesPlaceOf', sym.I, sym.I, Val)
+    R.add(Contract(C + 'ComposedNode.ayns.filter_nodes', [P.node('self', 'ComposedNode')], name='abstract-emptying', assume_only=True,
+                   modifies=anyall([f for f in NODEF if f not in KEEP]),
+                   ensures=[('def:EmptiedByPruning', lambda c: Emptied(c.ref('self')) == (S.children(c.post, c.ref('self')).len == 0))],
+                   result=lambda c, it: c.a['self'], props=('C02', 'C04'), opts={'callee': False, 'bind_partial': True},
+                   note='pruning: removes entries (proved for mappings in c_filter); priorities and delete flags of all nodes are untouched'))
+    R.add(Contract(N + 'ConfigNode._replace_other', [P.node('self', 'ConfigNode'), P.node('other', 'ConfigNode'), P.val('allow_promotions', 'bool')], name='abstract-named',
+                   assume_only=True, modifies=anyall(NODEF), result=P.node('result', 'ConfigNode', maybe_fresh=True),
+                   ensures=[('def:TakesPlaceOf', lambda c: c.rt == Takes(c.ref('self'), c.ref('other')))],
+                   props=('C02', 'C04'), opts={'callee': False}, note='flag combination with possible type promotion; its result is named by a ghost function of the two nodes'))
+    USE = {N + 'ConfigNode.ayns.on_merge': 'abstract', N + 'ConfigNode.ayns._require_all_new': 'abstract', C + 'ComposedNode.ayns._require_all_new': 'abstract',
+           C + 'ComposedNode.ayns.filter_nodes': 'abstract-emptying', N + 'ConfigNode._replace_self': 'abstract', N + 'ConfigNode._replace_other': 'abstract-named'}
+    from .c_containers import USE_VIEWS
+    USE.update(USE_VIEWS)
+
+    def ens(c):
+        s, o = c.ref('self'), c.ref('other')
+        cond = z3.And(S.delete_eff(c.eng, c.pre, o), Emptied(s), S.stronger(c.pre, o, c.pre, s, z3.BoolVal(True)))
+        return [('C02+C04.a-deleting-newer-node-that-is-not-outranked-takes-the-place-of-an-older-node-emptied-by-the-pruning', z3.Implies(cond, c.rt == Takes(o, s)))]
+
+    R.add(Contract(C + 'ComposedNode.ayns.on_merge_impl', [P.node('self', 'ConfigDict', exact=True), P.path('path'), P.node('other', ['ConfigDict', 'ConfigList'])],
+                   name='wholesale-replacement',
+                   requires=lambda c: [('valid', z3.And(S.valid_flags(c.pre, c.ref('self')), S.valid_flags(c.pre, c.ref('other')), c.ref('self') != c.ref('other')))],
+                   modifies=anyall(NODEF), raises=[Raises('ValueError'), Raises('MergeError'), Raises('TypeError'), Raises('KeyError'), Raises('IndexError')],
+                   ensures=[('wholesale', ens)], result=P.val('result', 'any'),
+                   loops={0: Loop(lambda c, L: [], mod_locals=['key', 'value', 'child', 'merge', 'possibly_new_child'], mod_fields=NODEF)},
+                   props=('C02', 'C04'),
+                   opts={'use': USE, 'verify_only': True, 'no_search': True, 'assume_children_are_objects': True, 'no_frame': True, 'skip_kinds': ('pre', 'safety')},
+                   note='older node a mapping, newer node a mapping or a list; callee preconditions and run-time type safety are not obligations of this instance'))
+
+
 def register_nearest(R):
     """ComposedNode.ayns.get_first_not_missing_node (C04/C05): the counterpart an older entry is compared with is the DEEPEST existing
     node along its (relative) path in the newer tree - relative to an assumed contract of the path walk get_node(intermediate=True,
@@ -268,4 +311,5 @@ def _reg_all(R):
     register(R)
     register_dominance(R)
     register_nearest(R)
+    register_wholesale(R)
     register_traversals(R)
